@@ -1,6 +1,6 @@
 From Coq Require Import ZArith Reals Lra.
 From Flocq Require Import Core BinarySingleNaN.
-Require Import GV.FloatBase GV.FloatLemmas GV.AngleM GV.AngleProofs GV.NewProofs GV.CtorProofs.
+Require Import GV.FloatBase GV.FloatLemmas GV.AngleM GV.AngleProofs GV.NewProofs GV.CtorProofs GV.GeonumM GV.PiBounds GV.TrigProofs GV.DotValue.
 Open Scope R_scope.
 Require Import GV.Properties.C04.
 Check C04_spellings : forall a b,
@@ -35,3 +35,12 @@ Check C04_divf : forall a k, Canon a -> (blade a < 2 ^ 50)%Z -> fin k ->
   Rabs (theta (divf_v a k) - theta a / R_ k)
     <= R_ eps10 + / 4503599627370496 + bpow radix2 (-69) + bpow radix2 (-49) * (theta a / R_ k).
 Print Assumptions C04_divf.
+Check C04_total_any : forall a b, canonp (rem a) -> canonp (rem b) ->
+  exists j : Z, (0 <= j)%Z /\
+  Rabs (theta (geometric_sub a b) - (theta a - theta b) - IZR (4 * j) * R_ Q) <= R_ eps10 + 3 * / 4503599627370496.
+Print Assumptions C04_total_any.
+Check C04_direction : forall a b, canonp (rem a) -> canonp (rem b) ->
+  exists j : Z, (0 <= j)%Z /\
+  Rabs (dirR (geometric_sub a b) - (dirR a - dirR b) - 2 * IZR j * Rtrigo1.PI)
+    <= R_ eps10 + 3 * / 4503599627370496 + 2 / 10000000000000000.
+Print Assumptions C04_direction.
